@@ -197,6 +197,14 @@ def proofs(ctx, cfg):
             ctx.violation("audit", "theorem %s uses axioms outside the trusted base" % t, {"axioms": axioms[t]}, False)
             ok = False
     ctx.coverage["discharged"] = len([t for t in thms if t in axioms and set(axioms[t]) <= ALLOWED_AXIOMS])
+    if ctx.tier == "thorough":
+        # independent re-check of the compiled property modules and the proof modules they import
+        for m in mods:
+            rc, out, dt = sh(["lake", "env", "leanchecker", m], cwd=LEAN, timeout=1500, limit=True)
+            ctx.coverage.setdefault("leanchecker", {})[m] = {"rc": rc, "seconds": round(dt, 1)}
+            if rc != 0:
+                ctx.violation("audit", "leanchecker rejects " + m, {"output": out[-3000:]}, False)
+                ok = False
     ctx.coverage["theorems"] = thms
     return ok and not bad
 
